@@ -55,12 +55,12 @@ META = {
         "histories (schedules) executed to the end and compared."
     ),
     "bound": {
-        "quick": "pool of 11 colliding documents (198 operations); bfs over the 66 whole-document operations to closure (cap depth 8); all histories of length 2 "
-                 "whose first call is a whole-document call with caching on and whose second is any operation except single pages with caching off (33 x 132); all 20 interleavings of the 3+3 "
-                 "next() calls of every document pair incl. a document with itself (66 pairs; caching on, for a document with itself also off/off and on/off); "
+        "quick": "pool of 12 colliding documents (222 operations); bfs over the 72 whole-document operations to closure (cap depth 8); all histories of length 2 "
+                 "whose first call is a whole-document call with caching on and whose second is any operation except single pages with caching off (36 x 148); every whole-document operation after a document that interns 34000 distinct names; all 20 interleavings of the 3+3 "
+                 "next() calls of every document pair incl. a document with itself (78 pairs; caching on, for a document with itself also off/off and on/off); "
                  "all 3- and 4-subsets of a 3x3 grid x 2 boxes_flow",
-        "thorough": "same pool; bfs over all 198 operations to closure; all histories of length 3 over the 33 whole-document calls followed by "
-                    "any of the 198 operations at depth 2 and the 33 at depth 3; interleavings as quick; 3-,4-,5-subsets of the grid x 4 boxes_flow",
+        "thorough": "same pool; bfs over all 222 operations to closure; the 34000-names prefix as quick; all histories of length 3 over the 36 whole-document calls followed by "
+                    "any of the 222 operations at depth 2 and the 36 at depth 3; interleavings as quick; 3-,4-,5-subsets of the grid x 4 boxes_flow",
     },
     "assumptions": [
         "process-wide state = module globals and class attributes of the pdfminer package (digest walks all of them generically); "
@@ -311,11 +311,27 @@ def build_pool() -> dict:
                                                  "ColorSpace": N("DeviceGray"), "Filter": N("CCITTFaxDecode"),
                                                  "DecodeParms": {"K": -1, "Columns": 8, "Rows": 1}}, b"\x80\x08\x00\x80"))}}
 
+    selfref = {}
+
+    def selflen(d):
+        # an image stream whose /Length is a reference to the stream itself (resolved while the stream is being parsed),
+        # used by both pages: it must still be there the second time, with or without the object cache
+        if "r" not in selfref:
+            r = d.reserve()
+            d.set(r, Stream({"Type": N("XObject"), "Subtype": N("Image"), "Width": 2, "Height": 2, "BitsPerComponent": 8,
+                             "ColorSpace": N("DeviceGray")}, b"\x10\x20\x30\x40", length=r))
+            selfref["r"] = r
+        return selfref["r"]
+
+    use2 = b"q 30 0 0 30 400 400 cm /Im2 Do Q\n"
     pool["inline"] = _two_pages(
-        {"F1": _font("FontA", N("WinAnsiEncoding"))}, _text("F1", 12, 72, 700, b"AB") + ii + b"q 40 0 0 5 300 500 cm /Im1 Do Q\n",
-        {"F1": _font("FontA", N("WinAnsiEncoding"))}, ii + _text("F1", 12, 72, 700, b"CD") + ii.replace(b"100 500", b"200 500"),
-        res1_extra=ccitt,
+        {"F1": _font("FontA", N("WinAnsiEncoding"))}, _text("F1", 12, 72, 700, b"AB") + ii + b"q 40 0 0 5 300 500 cm /Im1 Do Q\n" + use2,
+        {"F1": _font("FontA", N("WinAnsiEncoding"))}, ii + _text("F1", 12, 72, 700, b"CD") + ii.replace(b"100 500", b"200 500") + use2,
+        res1_extra=lambda d: {"XObject": {**ccitt(d)["XObject"], "Im2": selflen(d)}},
+        res2_extra=lambda d: {"XObject": {"Im2": selflen(d)}},
     )
+    pool["leak"] = _build_leak()
+    pool["bignames"] = _build_bignames()
     # -- distance ties between text boxes
     f = _font("FontA", N("WinAnsiEncoding"), fixed=True)
     pool["ties"] = grid_doc([0, 2, 4, 6, 8], font=f, second=[1, 3, 5, 7])
@@ -406,6 +422,47 @@ def _build_updated():
     return bytes(out)
 
 
+def _build_leak():
+    """Three pages through one interpreter: page 1 has a font F1, a form Fm0, a colour space CS0 and ends with two unconsumed
+    operands; page 2 has an own empty /Resources and uses the same names, starting with an operator that lacks its operands;
+    page 3 has no /Resources on itself or any ancestor.  Nothing of page 1 may survive into pages 2 and 3."""
+    d = Doc()
+    cat, pages, p1, p2, p3 = d.reserve(), d.reserve(), d.reserve(), d.reserve(), d.reserve()
+    f = d.add(_font("FontA", {"Type": N("Encoding"), "BaseEncoding": N("WinAnsiEncoding"), "Differences": [65, N("sigma")]}))
+    fm = d.add(Stream({"Type": N("XObject"), "Subtype": N("Form"), "BBox": [0, 0, 100, 50], "Resources": {"Font": {"F1": f}}},
+                      _text("F1", 9, 5, 5, b"FORM")))
+    use = b"BT /F1 10 Tf Td 72 600 Td /CS0 cs 0 1 0 sc (ABC) Tj ET\nq 1 0 0 1 200 300 cm /Fm0 Do Q\n"
+    s1 = d.add(Stream({}, b"BT /F1 10 Tf 72 600 Td /CS0 cs 0 1 0 sc (ABC) Tj ET\nq 1 0 0 1 200 300 cm /Fm0 Do Q\n30 40\n"))
+    s2 = d.add(Stream({}, use))
+    s3 = d.add(Stream({}, use + b"50 60 70\n"))
+    d.set(cat, {"Type": N("Catalog"), "Pages": pages})
+    d.set(pages, {"Type": N("Pages"), "Kids": [p1, p2, p3], "Count": 3, "MediaBox": [0, 0, 612, 792]})
+    d.set(p1, {"Type": N("Page"), "Parent": pages, "Contents": s1,
+               "Resources": {"Font": {"F1": f}, "XObject": {"Fm0": fm}, "ColorSpace": {"CS0": N("DeviceRGB")}}})
+    d.set(p2, {"Type": N("Page"), "Parent": pages, "Resources": {}, "Contents": s2})
+    d.set(p3, {"Type": N("Page"), "Parent": pages, "Contents": s3})
+    return d.write(cat)
+
+
+BIGNAMES = 34000
+
+
+def _build_bignames():
+    """One page whose content carries 34000 distinct marked-content tags: more distinct names than any realistic bound on
+    the process-wide intern tables.  Not part of the operation alphabet; used as a history prefix by the 'names' family."""
+    import zlib
+
+    d = Doc()
+    cat, pages, p1 = d.reserve(), d.reserve(), d.reserve()
+    f = d.add(_font("FontA", N("WinAnsiEncoding")))
+    body = b"".join(b"/n%d MP\n" % i for i in range(BIGNAMES)) + _text("F1", 12, 72, 700, b"many names")
+    s1 = d.add(Stream({"Filter": N("FlateDecode")}, zlib.compress(body, 9)))
+    d.set(cat, {"Type": N("Catalog"), "Pages": pages})
+    d.set(pages, {"Type": N("Pages"), "Kids": [p1], "Count": 1, "MediaBox": [0, 0, 612, 792]})
+    d.set(p1, {"Type": N("Page"), "Parent": pages, "Resources": {"Font": {"F1": f}}, "Contents": s1})
+    return d.write(cat)
+
+
 def grid_doc(cells, font=None, second=None) -> bytes:
     """Single-glyph text boxes on a 3x3 grid with equal pitch (cell i at column i%3, row i//3)."""
     font = font or _font("FontA", N("WinAnsiEncoding"), fixed=True)  # equal glyph widths: equal boxes, real distance ties
@@ -435,9 +492,15 @@ def pool() -> dict:
     return _POOL
 
 
-DOCS = ["diffA", "diffB", "plain", "cjk1", "cjk2", "rc4", "objstm", "upd", "damaged", "inline", "ties"]
-SUBSETS = (None, 0, 1)
-OPS = [(d, k, c, s) for d in DOCS for k in KINDS for c in (True, False) for s in SUBSETS]
+DOCS = ["diffA", "diffB", "plain", "cjk1", "cjk2", "rc4", "objstm", "upd", "leak", "damaged", "inline", "ties"]
+NPAGES = {"leak": 3}
+
+
+def subsets(d):
+    return (None,) + tuple(range(NPAGES.get(d, 2)))
+
+
+OPS = [(d, k, c, s) for d in DOCS for k in KINDS for c in (True, False) for s in subsets(d)]
 WHOLE_OPS = [(d, k, True, None) for d in DOCS for k in KINDS]
 
 
@@ -813,7 +876,7 @@ def shard_ref(st):
     # (b) caching on == off
     for d in DOCS:
         for k in KINDS:
-            for s in SUBSETS:
+            for s in subsets(d):
                 a, b = R[(d, k, True, s)], R[(d, k, False, s)]
                 st.case(("caching", d, k, s), nontrivial=True, outcome=rhash(a))
                 if a != b:
@@ -824,7 +887,7 @@ def shard_ref(st):
     for d in DOCS:
         for k in KINDS:
             for c in (True, False):
-                whole, singles = R[(d, k, c, None)], [R[(d, k, c, s)] for s in (0, 1)]
+                whole, singles = R[(d, k, c, None)], [R[(d, k, c, s)] for s in subsets(d)[1:]]
                 if not all(r[0] == "ok" for r in [whole] + singles):
                     st.not_judged["single-vs-together: a call raises"] += 1
                     continue
@@ -952,6 +1015,42 @@ def shard_tree(st, first, tier):
         st.sample({"family": "tree", "history": [list(first), list(OPS[1])], "compared_with": "fresh-process result of the last call"})
 
 
+# ------------------------------------------------------------------------ names shard
+BIG_OP = ("bignames", "text", True, None)
+
+
+def _names(_):
+    """Child: extract the many-names document, then every whole-document operation in a grandchild."""
+    install_id("asc")
+    R = _REFS
+    import pdfminer.psparser as ps
+
+    before = len(ps.PSLiteralTable.dict)
+    big = run_op(BIG_OP)
+
+    def leaf(op):
+        got = run_op(op)
+        return (op, rhash(got), None if got == R[op] else got)
+
+    return big, before, len(ps.PSLiteralTable.dict), [fork_call(leaf, op) for op in WHOLE_OPS + [BIG_OP]]
+
+
+def shard_names(st):
+    R = refs(OPS + [BIG_OP])
+    big, before, after, res = fork_call(_names, None)
+    st.add("names_interned_by_prefix", after - before)
+    st.states += 1 + len(res)
+    if big != R[BIG_OP]:
+        st.violation("C12/many-names-document-not-reproducible", _case((), BIG_OP), R[BIG_OP][1][:1], big[1][:1], "names family")
+    for op, rh, bad in res:
+        st.transitions += 1
+        st.traces += 1
+        st.case(("names", op), nontrivial=True, outcome=rh)
+        if bad is not None:
+            _record(st, (BIG_OP,), op, R[op], bad, "names")
+    st.sample({"family": "names", "history": [list(BIG_OP)], "distinct_names_in_prefix_document": BIGNAMES, "interned": after - before})
+
+
 # ------------------------------------------------------------------ interleave shards
 def _interleave(args):
     (da, ca), (db, cb), sched = args
@@ -1049,7 +1148,7 @@ def shard_idorder(st, cells_list, tier):
 def shards(tier):
     # references are computed here, in forks of the (import-only) parent, and inherited by the pool workers
     refs(par=8)
-    out = [("ref",), ("bfs",)]
+    out = [("ref",), ("bfs",), ("names",)]
     out += [("tree", op) for op in WHOLE_OPS]
     out += [("il", a, b) for i, a in enumerate(DOCS) for b in DOCS[i:]]
     subs = grid_subsets(tier)
@@ -1063,6 +1162,8 @@ def run_shard(shard, tier, st):
         shard_ref(st)
     elif fam == "bfs":
         shard_bfs(st, tier)
+    elif fam == "names":
+        shard_names(st)
     elif fam == "tree":
         shard_tree(st, shard[1], tier)
     elif fam == "il":
@@ -1110,7 +1211,7 @@ def replay(case):
     elif fam == "singles":
         d, k, c, _ = case["op"]
         whole = fork_call(_replay_history, (case["docs"], [], (d, k, c, None)))
-        singles = [fork_call(_replay_history, (case["docs"], [], (d, k, c, s))) for s in (0, 1)]
+        singles = [fork_call(_replay_history, (case["docs"], [], (d, k, c, s))) for s in subsets(d)[1:]]
         if k == "text":
             joined, w = ["".join(r[1][0] for r in singles)], whole[1]
         elif k == "pages":
